@@ -19,6 +19,7 @@ import (
 
 	"github.com/Cloud-Foundations/keymaster/lib/instrumentedwriter"
 	"github.com/Cloud-Foundations/keymaster/lib/webapi/v0/proto"
+	"github.com/pquerna/otp"
 	"github.com/pquerna/otp/totp"
 )
 
@@ -415,12 +416,19 @@ func (state *RuntimeState) validateUserTOTP(username string, OTPValue int, t tim
 			return false, err
 		}
 
-		valid := totp.Validate(OTPString, string(clearTextKey))
+		matchedCounter, valid := totpMatchingCounter(OTPString,
+			string(clearTextKey), t, counter)
 		if !valid {
 			continue
 		}
+		// The validator accepts the values of the adjacent periods too: a
+		// value is only good if it is newer than the last one accepted.
+		if matchedCounter <= profile.LastSuccessfullTOTPCounter {
+			logger.Printf("validateUserTOTP: TOTP value already used")
+			return false, nil
+		}
 		if !fromCache {
-			profile.LastSuccessfullTOTPCounter = counter
+			profile.LastSuccessfullTOTPCounter = matchedCounter
 			err = state.SaveUserProfile(username, profile)
 			if err != nil {
 				logger.Printf("Saving profile error: %v", err)
@@ -445,6 +453,24 @@ func (state *RuntimeState) validateUserTOTP(username string, OTPValue int, t tim
 	state.totpLocalTateLimitMutex.Unlock()
 
 	return false, nil
+}
+
+// totpMatchingCounter returns the counter (period number) for which the given
+// value is the valid TOTP, looking at the current period and its neighbours
+// (the same skew totp.Validate allows).
+func totpMatchingCounter(passcode string, secret string, t time.Time,
+	counter int64) (int64, bool) {
+	const period = 30
+	for _, offset := range []int64{0, -1, 1} {
+		valid, err := totp.ValidateCustom(passcode, secret,
+			t.Add(time.Duration(offset*period)*time.Second),
+			totp.ValidateOpts{Period: period, Skew: 0,
+				Digits: otp.DigitsSix, Algorithm: otp.AlgorithmSHA1})
+		if err == nil && valid {
+			return counter + offset, true
+		}
+	}
+	return 0, false
 }
 
 func (state *RuntimeState) commonTOTPPostHandler(w http.ResponseWriter, r *http.Request, requiredAuthLevel int) (string, int, int, error) {
